@@ -227,7 +227,14 @@ func cmdFaults(args []string) error {
 			`select ?s, ?p, ?o from ?a where {?s ?p ?o} limit "1"^^type:int64;`,
 			`select ?s, ?p, ?o from ?a, ?b where {?s ?p ?o} limit "2"^^type:int64;`,
 			`select ?s, ?p, ?o from ?g, ?a, ?b where {?s ?p ?o} limit "3"^^type:int64;`,
-			`select ?o, ?s, ?p from ?b, ?g where {?s ?p ?o} limit "4"^^type:int64;`)
+			`select ?o, ?s, ?p from ?b, ?g where {?s ?p ?o} limit "4"^^type:int64;`,
+			// writes to several graphs of which more than one fails (here: do not exist): every failure is an error of
+			// the statement, none may block another
+			`insert data into ?nope1, ?nope2 {/u<a> "p"@[] /u<b>};`,
+			`insert data into ?a, ?nope1, ?nope2 {/u<a> "p"@[] /u<b>};`,
+			`delete data from ?nope1, ?nope2, ?nope3 {/u<a> "p"@[] /u<b>};`,
+			`insert data into ?a, ?b, ?nope1 {/u<a> "p"@[] /u<b> . /u<c> "q"@[] "1"^^type:int64};`,
+			`create graph ?a, ?b;`, `drop graph ?nope1, ?nope2;`)
 		for i := 0; i < *n; i++ {
 			if r.chance(3, 5) {
 				q.mode = modes[r.intn(len(modes))]
@@ -247,6 +254,27 @@ func cmdFaults(args []string) error {
 		g.emit(fmt.Sprintf("C text=%s calls=%d", hx(text), total), res.cls+" "+strings.Join(ctl.log, ","))
 		if res.cls != "ok" {
 			hist["baseline-"+res.cls]++
+			if res.cls == "ok" || strings.HasPrefix(res.cls, "err") {
+				// the statement fails without any injected fault (say, a graph that does not exist): with one driver
+				// call failing on top it still has to fail, in bounded time
+				for k := 0; k < total; k++ {
+					ctl := &faultCtl{failAt: k, after: 0}
+					base := runtime.NumGoroutine()
+					res, _ := runWithCfg(&faultStore{populated(), ctl}, text, runCfg{chanSize: 1, bulkSize: 2})
+					cls := res.cls
+					if cls != "hang" {
+						if n := settle(base, 300*time.Millisecond); n > base {
+							cls += "+leak"
+						}
+					}
+					if ctl.fired == "" {
+						continue
+					}
+					calls[ctl.fired]++
+					hist["fault-"+cls]++
+					g.emit(fmt.Sprintf("X text=%s cfg=%s at=%d after=0 call=%s", hx(text), runCfg{chanSize: 1, bulkSize: 2}, k, ctl.fired), cls)
+				}
+			}
 			continue
 		}
 		hist["baseline-ok"]++
